@@ -72,6 +72,10 @@ func (db *DB) GetBucket(i uint) (*Bucket, error) {
 	if readErr != nil {
 		return nil, readErr
 	}
+	if int(bucket.HashLen)+int(bucket.OffsetWidth) > int(bucket.Stride) {
+		// The hash length comes from the file and is used to slice entries of Stride bytes.
+		return nil, fmt.Errorf("invalid bucket header: hash length %d + value size %d exceeds entry size %d", bucket.HashLen, bucket.OffsetWidth, bucket.Stride)
+	}
 	bucket.Entries = io.NewSectionReader(db.Stream, int64(bucket.FileOffset), int64(bucket.NumEntries)*int64(bucket.Stride))
 	if db.prefetch {
 		// TODO: find good value for numEntriesToPrefetch
